@@ -233,6 +233,31 @@ func run(r *core.Run) {
 			l, class, marker = len(v), "lookalike-header", junk
 			r.Tag(fmt.Sprintf("lookalike-header:declared-%d", (i/10)%8))
 		}
+		// directed: clear windows with `%` material anywhere (runs of 1–4 `%`, sometimes a whole false header):
+		// judged whenever the model's window condition holds
+		if i%10 == 6 {
+			body := rd.Bytes(16 + rd.Intn(24))
+			for j := range body {
+				body[j] = 'a' + body[j]%26
+			}
+			for n := 1 + rd.Intn(3); n > 0; n-- {
+				at := rd.Intn(len(body) - 4)
+				for q := 1 + rd.Intn(4); q > 0; q-- {
+					body[at+q-1] = '%'
+				}
+			}
+			if rd.Chance(30) && len(body) >= 20 {
+				at := rd.Intn(len(body) - 13)
+				copy(body[at:], "%%%")
+				body[at+3] = byte(12 + rd.Intn(8))
+				for q := 4; q < 11; q++ {
+					body[at+q] = 0
+				}
+				body[at+11] = byte(0xF0 + rd.Intn(2))
+			}
+			v, l, class = body, len(body), "percent-window"
+			k = 1 + rd.Intn(l-1)
+		}
 		pat := core.Pick(rd, patterns)
 		if class != "lookalike-header" && rd.Chance(10) && k > 0 && k <= l {
 			for j := 0; j < k; j++ { // pattern equal to the window bytes (made printable)
@@ -283,6 +308,26 @@ func run(r *core.Run) {
 		if len(marker) >= 6 && !bytes.Contains(window, marker) && !bytes.Contains(pat, marker) { // byte-scan oracles need a high-entropy marker
 			r.Check(!bytes.Contains(stored, marker), "mask-stored-clear", fmt.Sprintf("the hidden part of a masked value is stored in clear (cfg %s, value %s, class %s)", cfg, core.Hex(v), class))
 		}
+		// which clear windows are judged: exactly those satisfying the hypothesis of the read theorems
+		// (`maskWindowOk`: the scan passes over every position of the window when read together with what
+		// follows it in the stored value) – evaluated by the model on the stored bytes – and, for the legacy
+		// scans of bare envelopes, no struct/block tag material
+		protPart := stored
+		if k < l {
+			if side == "left" {
+				protPart = stored[k:]
+			} else {
+				protPart = stored[:len(stored)-k]
+			}
+		}
+		winok := r.ModelOnly(fmt.Sprintf("C11.windowok %s %s %s", side, core.Hex(window), core.Hex(protPart))) == "true"
+		clean := winok && !bytes.Contains(window, []byte("\"\"\"\""))
+		if clean && bytes.Contains(window, []byte("%")) {
+			r.Tag("window:judged-with-percent")
+		}
+		if !clean {
+			r.Tag("window:not-judged")
+		}
 		// owner (possibly after a rotation: value written under an older key is still readable)
 		rot := *owner
 		nk := env.NewKV(rd, 1, 1)
@@ -291,11 +336,13 @@ func run(r *core.Run) {
 		rot.Pub, rot.Sym = nk.Pub, nk.Sym
 		for ri, reader := range []*env.KV{owner, &rot} {
 			got, ok := okBytes(r.Do(fmt.Sprintf("C11.read %s %s %s", cfg, reader.Tokens(), core.Hex(stored))))
+			if !winok && class == "percent-window" {
+				continue // a false container header inside the window: outside the theorems (in-band signalling), compared only
+			}
 			r.Check(ok && bytes.Equal(got, v), "mask-owner", fmt.Sprintf("owner (reader %d) did not get the complete original value back (k=%d, side=%s, len=%d)", ri, k, side, l))
 		}
 		// readers that cannot decrypt: another client, a client without any keys
 		other := env.NewKV(rd, 1, 1)
-		clean := !bytes.Contains(window, []byte("%%%")) && !bytes.Contains(window, []byte("\"\"\"\""))
 		for ri, reader := range []*env.KV{other, none} {
 			got, ok := okBytes(r.Do(fmt.Sprintf("C11.read %s %s %s", cfg, reader.Tokens(), core.Hex(stored))))
 			if !r.Check(ok, "mask-read-failed", "masked read failed for a reader without keys") {
